@@ -1641,3 +1641,174 @@ def rule_class_file_named_after_the_class(ctx, rep: Report, rid="I13"):
             f"{sorted(set(probs), key=probs.index)[:3]}: the rest of the toolbox names the class in full (guards, constructors of returned objects, base lists), and two "
             f"classes whose names agree in the part kept share one file - the ids of the one overwritten keep their cases and routines and lose "
             f"every call site", loc)
+
+
+# ------------------------------------------------------------------------------------------ T20 / T21 the preamble and the class registry by evaluation
+def _class_constants(prog, cname: str):
+    """The class-level constants of a program class (the text templates of WrapperTemplate) as a sample object: each attribute's
+    defining expression evaluated by the interpreter."""
+    from .rules_matlab import SampleObj, _PathEval, _Raised, mini_exec
+    tci = prog.cls(cname)
+    out = SampleObj(__kind__=cname)
+    for a, v in tci.attrs.items():
+        fn = ast.parse("def f():\n    return 0").body[0]
+        fn.body[0].value = v
+        try:
+            out[a] = mini_exec(fn, {}, budget=4000)
+        except (_PathEval.Unknown, _Raised, TypeError, KeyError, IndexError, ValueError):
+            pass
+    return out
+
+
+def _preamble_samples(ctx):
+    from .rules_matlab import SampleObj
+    me, *_ = _emitter_samples(ctx)
+    root = SampleObj(__kind__="Namespace", name="", parent="")
+    nsn = SampleObj(__kind__="Namespace", name="ns", parent=root, full_namespaces=lambda: ["", "ns"])
+
+    def K(name, virt, insts=None, cpp=None, serial=False):
+        c = SampleObj(__kind__="InstantiatedClass", name=name, parent=nsn, namespaces=lambda: ["", "ns"], is_virtual=virt, instantiations=insts or [],
+                      to_cpp=(lambda: cpp or "ns::" + name), static_methods=[], properties=[], ctors=[], parent_class="", enums=[], operators=[],
+                      methods=[SampleObj(__kind__="Method", name="serialize")] if serial else [SampleObj(__kind__="Method", name="size")])
+        c["original"] = SampleObj(__kind__="Class", name=name, namespaces=lambda: ["", "ns"])
+        return c
+    dbl = SampleObj(__kind__="Typename", name="double", namespaces=[], instantiations=[])
+    classes = [K("A", True, serial=True), K("Ign", False), K("B", True), K("C", False, serial=True), K("TD", True, insts=[dbl], cpp="ns::T<double>"),
+               K("Mid", True), K("TE", False, insts=[dbl], cpp="ns::U<double>", serial=True), K("Last", True)]
+    return me, classes, ["ns::Ign", "ns::Mid", "ns::Last"]
+
+
+def preamble_verdict(ctx):
+    """{serialization on/off: list of differences} from running generate_preamble on the eight sample classes; a mode is missing
+    where the interpreter could not follow."""
+    return ctx._get("preamble_verdict", lambda: _preamble_verdict(ctx))
+
+
+def _preamble_verdict(ctx):
+    from .rules_matlab import _PathEval, _Raised, mini_exec
+    ci, prog = mw(ctx)
+    fn = prog.method("MatlabWrapper", "generate_preamble")
+    methods = _all_methods(prog, ci)
+    wt = _class_constants(prog, "WrapperTemplate")
+    out = {}
+    for boost in (False, True):
+        me, classes, ignored = _preamble_samples(ctx)
+        me["classes"], me["ignore_classes"], me["use_boost_serialization"] = classes, ignored, boost
+        try:
+            r = mini_exec(fn, {"self": me, "WrapperTemplate": wt}, budget=300000, methods=methods)
+        except (_PathEval.Unknown, _Raised, TypeError, KeyError, IndexError):
+            continue
+        if not (isinstance(r, list) and len(r) == 5 and all(isinstance(x, str) for x in r)):
+            continue
+        typedefs, guids, collectors, delete_all, rtti = r
+        probs = []
+        for c in classes:
+            nm = c["name"]
+            full = "ns" + nm
+            sep = nm if c["instantiations"] else c["to_cpp"]()
+            is_ign = "ns::" + nm in ignored
+            want = 0 if is_ign else 1
+            n_decl = len(re.findall(r"typedef\s+std::set<\s*std::shared_ptr<\s*" + re.escape(sep) + r"\s*>\s*\*\s*>\s+Collector_" + full + r"\s*;", collectors))
+            n_obj = len(re.findall(r"static\s+Collector_" + full + r"\s+collector_" + full + r"\s*;", collectors))
+            n_free = len(re.findall(r"for\s*\(\s*Collector_" + full + r"::iterator\s+iter\s*=\s*collector_" + full + r"\.begin\(\)", delete_all))
+            n_rtti = len(re.findall(r"typeid\(\s*" + re.escape(sep) + r"\s*\)\.name\(\)\s*,\s*\"" + full + r"\"", rtti))
+            n_any_rtti = len(re.findall(r"\"" + full + r"\"", rtti))
+            n_td = len(re.findall(r"typedef\s+" + re.escape(c["to_cpp"]()) + r"\s+" + nm + r"\s*;", typedefs))
+            what = f"{'ignored ' if is_ign else ''}{'virtual ' if c['is_virtual'] else ''}class {nm}"
+            if (n_decl, n_obj) != (want, want):
+                probs.append(f"{what}: collector type declared {n_decl} time(s), object {n_obj} (expected {want})")
+            if n_free != want:
+                probs.append(f"{what}: freed at unload {n_free} time(s) (expected {want})")
+            want_rtti = 1 if (c["is_virtual"] and not is_ign) else 0
+            if n_rtti != want_rtti or n_any_rtti != want_rtti:
+                probs.append(f"{what}: registered for RTTI {n_any_rtti} time(s), {n_rtti} of them under its own C++ type (expected {want_rtti})")
+            want_td = 1 if (c["instantiations"] and not is_ign) else 0
+            if n_td != want_td:
+                probs.append(f"{what}: typedef of the instantiation declared {n_td} time(s) (expected {want_td})")
+            if boost:
+                has = any(m_["name"] == "serialize" for m_ in c["methods"])
+                n_g = len(re.findall(r"BOOST_CLASS_EXPORT_GUID\(\s*" + re.escape(sep) + r"\s*,\s*\"" + full + r"\"\s*\)", guids))
+                if n_g != (1 if has and not is_ign else 0):
+                    probs.append(f"{what}: exported for serialization {n_g} time(s) (expected {1 if has and not is_ign else 0})")
+            elif guids.strip():
+                probs.append("serialization exports emitted although serialization is off")
+        out[boost] = probs
+    return out
+
+
+def rule_preamble_by_evaluation(ctx, rep: Report, rid="T20"):
+    """The preamble of the MEX file declares one collector per wrapped class, frees each of them once in _deleteAllObjects,
+    registers exactly the virtual ones for RTTI under their own two names, declares the typedef of every typedef'd instantiation,
+    and does none of this for an ignored class - wherever in the list the ignored classes stand.  Decided by running
+    generate_preamble (the analyser's own interpreter) on a sample wrapper holding eight classes (virtual and plain, typedef'd
+    instantiations, ignored ones first, in the middle and last), with and without serialization, and reading the five texts."""
+    ci, prog = mw(ctx)
+    fn = prog.method("MatlabWrapper", "generate_preamble")
+    loc = f"{ci.mod.rel}:{fn.lineno}"
+    v = preamble_verdict(ctx)
+    for boost, probs in sorted(v.items()):
+        rep.add(rid, f"preamble:{'with' if boost else 'without'} serialization:one collector, one clean-up block, RTTI entry iff virtual, nothing for an ignored class", not probs,
+                f"run on eight sample classes: {probs[:3]}: a routine then uses a collector that is not declared (the module does not build), objects survive "
+                f"the unload, or a virtual object comes back to MATLAB as its base class", loc)
+    rep.units["preamble_runs_evaluated"] = len(v)
+    if not v:
+        rep.add(rid, "preamble evaluated on sample classes", True, "not evaluable; T1 decides by structure", loc, nontrivial=False)
+
+
+def rule_registry_keeps_every_class(ctx, rep: Report, rid="T21"):
+    """The wrapper's class registry (add_class, walked by generate_preamble) keeps every class it is given once: two different
+    declarations never collapse into one entry - not two typedefs of the same template instantiation (same C++ type, two MATLAB
+    classes), not two classes of the same name in different namespaces - and a class added twice is kept once.  Decided by
+    running add_class on sample classes; should the declaration classes define their own `__eq__`, by running that on the pairs
+    as well (a dictionary keyed by the class object follows it)."""
+    from .rules_matlab import SampleObj, _PathEval, _Raised, mini_exec, program_classes
+    ci, prog = mw(ctx)
+    fn = prog.method("MatlabWrapper", "add_class")
+    loc = f"{ci.mod.rel}:{fn.lineno}"
+    methods = _all_methods(prog, ci)
+    ps = func_params(fn)
+    root = SampleObj(__kind__="Namespace", name="", parent="")
+
+    def ns(name):
+        return SampleObj(__kind__="Namespace", name=name, parent=root, full_namespaces=lambda: ["", name])
+
+    def K(name, nsname, cpp):
+        n_ = ns(nsname)
+        return SampleObj(__kind__="InstantiatedClass", __bases__=["Class"], name=name, parent=n_, namespaces=lambda: ["", nsname], to_cpp=lambda: cpp,
+                         instantiations=[], is_virtual=False, template="", parent_class="", ctors=[], methods=[], static_methods=[], properties=[],
+                         operators=[], enums=[])
+    a, b, c, d = K("BoxD", "geo", "geo::Box<double>"), K("Scalar", "geo", "geo::Box<double>"), K("BoxD", "other", "other::BoxD"), K("Pt", "geo", "geo::Pt")
+    label = "registry:every distinct class is kept, a class added twice is kept once"
+    me = SampleObj(__kind__="MatlabWrapper", classes=[], classes_elems={})
+    try:
+        for x in (a, b, c, a, d):
+            mini_exec(fn, dict(zip(ps, [me, x])), budget=4000, methods=methods)
+    except (_PathEval.Unknown, _Raised, TypeError, KeyError, IndexError) as e:
+        rep.add(rid, label, True, f"not evaluable ({str(e)[:60]})", loc, nontrivial=False)
+        return
+    got = me.get("classes")
+    names = [f"{x['parent']['name']}::{x['name']}" for x in got] if isinstance(got, list) and all(isinstance(x, dict) for x in got) else got
+    ok = isinstance(got, list) and len(got) == 4 and all(x is y for x, y in zip(got, (a, b, c, d)))
+    detail = f"adding geo::BoxD, geo::Scalar (the same instantiation under another name), other::BoxD, geo::BoxD again, geo::Pt leaves {names}"
+    # a dictionary or set keyed by the class objects follows their own notion of equality, if they have one
+    eqs = []
+    for cname in ("InstantiatedClass", "Class"):
+        try:
+            kc = prog.cls(cname)
+        except Exception:
+            continue
+        for c_ in prog.mro(kc):
+            if "__eq__" in c_.methods and c_.methods["__eq__"] not in [e_[1] for e_ in eqs]:
+                eqs.append((c_.qual, c_.methods["__eq__"]))
+    for qual, eq in eqs:
+        classes = program_classes(prog, ["InstantiatedClass", "Class"])
+        for x, y, what in ((a, b, "two typedefs of one instantiation"), (a, c, "two classes of one name in different namespaces")):
+            try:
+                r = mini_exec(eq, dict(zip(func_params(eq), [x, y])), budget=4000, classes=classes, methods=_all_methods(prog, prog.cls("InstantiatedClass")))
+            except (_PathEval.Unknown, _Raised, TypeError, KeyError, IndexError):
+                continue
+            if r is True:
+                ok = False
+                detail += f"; {qual}.__eq__ calls {what} equal, and add_class keys its dictionary by the class object"
+    rep.add(rid, label, ok, f"{detail}: a class dropped from the registry keeps its classdef and routines but loses its collector, its clean-up block and its RTTI "
+            f"entry - the module does not build, or leaks", loc)
